@@ -4,7 +4,7 @@
 textonly=0; if [ "$1" = --text-only ]; then textonly=1; shift; fi
 for id in "$@"; do
   d=/tmp/seed/$id; out=$d/PROPERTY.txt
-  if [ $textonly = 1 ]; then out=/dev/stdout; else rm -rf $d; git -C /repo worktree prune; mkdir -p $d/out; git -C /repo worktree add --detach $d/wt HEAD -q; sed "s/__ID__/$id/g" /verif/tools/seed_prompt_r5.txt > $d/TASK.txt; fi
+  if [ $textonly = 1 ]; then out=/dev/stdout; else rm -rf $d; git -C /repo worktree prune; mkdir -p $d/out; git -C /repo worktree add --detach $d/wt HEAD -q; sed "s/__ID__/$id/g" /verif/tools/${SEED_PROMPT:-seed_prompt_r6.txt} > $d/TASK.txt; fi
   python3 - "$id" > $out <<'PY'
 import json,sys
 for l in open('/verif/properties.jsonl'):
